@@ -55,6 +55,9 @@ struct Hist {
 	/// set by a directed episode: the next cancel names this slate
 	force_cancel: Option<Uuid>,
 	force_direct: bool,
+	/// (amount, amount_includes_fee, ttl_blocks): a send with exactly these, from the active account,
+	/// smallest outputs first, one change output, not late-locked
+	force_init: Option<(u64, bool, Option<u64>)>,
 }
 
 fn acct_name(a: u64) -> Option<&'static str> {
@@ -379,7 +382,8 @@ impl Hist {
 	fn init_send(&mut self, i: usize) {
 		let tip = self.s.node.height();
 		let active = self.active(i);
-		let src: Option<u64> = if self.p.chance(2, 5) {
+		let fi = self.force_init.take();
+		let src: Option<u64> = if fi.is_none() && self.p.chance(2, 5) {
 			Some(self.p.below(2))
 		} else {
 			None
@@ -418,6 +422,25 @@ impl Hist {
 			},
 			late_lock: Some(late),
 			..Default::default()
+		};
+		let (args, late, amount) = match fi {
+			Some((amt, aif, ttl)) => (
+				InitTxArgs {
+					src_acct_name: None,
+					amount: amt,
+					amount_includes_fee: if aif { Some(true) } else { None },
+					minimum_confirmations: 1,
+					max_outputs: 500,
+					num_change_outputs: 1,
+					selection_strategy_is_use_all: false,
+					ttl_blocks: ttl,
+					late_lock: Some(false),
+					..Default::default()
+				},
+				false,
+				amt,
+			),
+			None => (args, late, amount),
 		};
 		let view = self.node_view(i);
 		let a2 = args.clone();
@@ -1065,6 +1088,78 @@ impl Hist {
 		}
 	}
 
+	/// Directed expiry among other pending transactions: the account has a send without change and
+	/// a second send, both with a cutoff; the first is completed and mined, the second stays pending;
+	/// blocks pass until both cutoffs are reached and only then the wallet is updated — the first is
+	/// then confirmed (by its kernel) in the very update that must cancel the second.
+	fn ttl_episode(&mut self) {
+		let i = self.p.below(2) as usize;
+		let tip = self.s.node.height();
+		let parent = self.active(i);
+		let all = true;
+		self.refresh(i, all);
+		// the smallest spendable output of the account, sent whole (fee included): no change
+		let smallest: Option<u64> = self.s.with(i, |b, _| {
+			b.iter()
+				.filter(|o| key_pair(&o.root_key_id).0 == parent && o.eligible_to_spend(tip, 1))
+				.map(|o| o.value)
+				.min()
+		});
+		let smallest = match smallest {
+			Some(v) => v,
+			None => return,
+		};
+		let ttl = self.p.range(2, 4);
+		let before = self.flights.len();
+		self.force_init = Some((smallest, true, Some(ttl)));
+		self.init_send(i);
+		if self.flights.len() == before {
+			return;
+		}
+		let a = self.flights.len() - 1;
+		let s1 = self.flights[a].s1.clone();
+		let num = self.flights[a].num;
+		let r_i = 1 - i;
+		let r = guarded(|| self.s.with(r_i, |b, m| foreign::receive_tx(b, m, &s1, None, false)));
+		let rc = rc_of(&r);
+		if let Ok(Ok(s2)) = &r {
+			self.flights[a].s2 = Some(wire(s2));
+		}
+		self.record(
+			r_i,
+			json!({"k": "receive", "slate": num, "amount": s1.amount.to_string(), "ttl": s1.ttl_cutoff_height,
+				"dest": null, "crypto_ok": true}),
+			rc.clone(),
+			json!({"foreign": true, "reply_participants": if rc == vec![0] { 1 } else { -1 }, "tampered": false}),
+		);
+		if rc != vec![0] {
+			return;
+		}
+		self.lock(a);
+		// the second send of the account, with a cutoff of its own, reserved and left pending
+		let ttl2 = self.p.range(1, 4);
+		let before2 = self.flights.len();
+		self.force_init = Some((self.p.range(1, 2_000_000_000), false, Some(ttl2)));
+		self.init_send(i);
+		if self.flights.len() > before2 {
+			let g = self.flights.len() - 1;
+			self.lock(g);
+		}
+		self.finalize(a);
+		if self.flights[a].fin.is_none() {
+			return;
+		}
+		self.post(a);
+		// the other wallet mines: the sender sees nothing until both cutoffs have passed
+		for n in 0..5 {
+			self.mine(r_i, n == 0);
+		}
+		if self.active(i) != parent {
+			self.set_active(i, parent);
+		}
+		self.update_state(i);
+	}
+
 	/// Directed invoice: issued, paid (one time in six by the issuing wallet itself), reserved,
 	/// finalized by the issuer, posted, mined and looked at by both sides.
 	fn invoice_episode(&mut self) {
@@ -1288,8 +1383,9 @@ impl Hist {
 		let w_restore = 2;
 		let w_scan = 2;
 		let w_update = 4;
+		let w_ttl = if self.profile == "c17" { 8 } else { 1 };
 		// the bands below plus a tail of 4 (reopen or nothing)
-		let total = 14 + 12 + 3 + w_init + 14 + 14 + 12 + 8 + w_cancel + w_cbkey + w_fork + w_episode + w_pay + w_restore + w_scan + w_update + 4;
+		let total = 14 + 12 + 3 + w_init + 14 + 14 + 12 + 8 + w_cancel + w_cbkey + w_fork + w_episode + w_pay + w_restore + w_scan + w_update + w_ttl + 4;
 		let roll = self.p.below(total);
 		let mut acc = 0;
 		let mut in_band = |w: u64| {
@@ -1349,6 +1445,8 @@ impl Hist {
 			self.scan(i);
 		} else if in_band(w_update) {
 			self.update_state(i);
+		} else if in_band(w_ttl) {
+			self.ttl_episode();
 		} else if self.p.chance(1, 2) {
 			// closing and opening the wallet forgets the active account (it is not persisted):
 			// for the model a reopen is a switch to the default account
@@ -1394,6 +1492,7 @@ fn main() {
 			force_late: None,
 			force_cancel: None,
 			force_direct: false,
+			force_init: None,
 		};
 		// a funded start (modelled as coinbase ops): the same number of blocks to each wallet, in
 		// half of the histories also to the second account of each wallet (so that per-account
